@@ -32,4 +32,39 @@ TEXT = {
         "level_text": "A relational reference model (sets of nicks/channels, membership relation with privileges) is explored breadth-first to closure over a small name universe; from every reachable state every operation (quick: every pair of operations) with every argument tuple, including the empty name and names in use, is executed on a real tracker rebuilt by replaying the shortest path, comparing every return value and the whole observable state. Random 10-300 step histories over a larger universe with full mode alphabets cover what the small universe cannot. Exhaustive within the stated universe (evidence reports states/edges and whether the frontier emptied), sampling beyond.",
         "level_note": "Trusted: harness/model/tracker.go. The closure reaches each model state by its shortest path only (hidden implementation state reachable only through longer histories is covered by the two-operation suffixes and the random histories, not exhaustively).",
     },
+    "C03": {
+        "technique": "property-based testing (rapid) of generated sessions with drawn read segmentation, handler durations and GOMAXPROCS; invariant oracle over a global enter/exit tick history",
+        "level_text": "Sessions of numbered lines are fed through drawn read segmentations (one read, byte-wise, random cuts, a line longer than the read buffer) to 1-4 foreground handlers per verb with drawn durations under GOMAXPROCS 1/2/4/16, ending in EOF / read error / Close with lines still unread. The enter/exit history must show wire order, no overlap between consecutive lines, exactly-once delivery of every acknowledged line, CONNECTED placed after the line before 001 and before the line after it with Me() already updated, and DISCONNECTED after every foreground invocation.",
+        "level_note": "Goroutine scheduling is perturbed, not controlled: a pass is 'no violation in N explored sessions'. A schedule-dependent failure is replayed 200 times and the hit rate reported.",
+    },
+    "C04": {
+        "technique": "model-based stateful property testing (rapid): generated Handle/HandleFunc/HandleBG/Remove/event/in-handler/racing histories against a multiset model",
+        "level_text": "Histories over registration, removal (first/middle/last/only, long lists), events in any letter case, one-shot in-handler scripts (self-removal, removal of another handler, registration in the same or the other set) and registrations/removals racing with an event are executed on a live connection; per event the set of invoked handlers must equal the model's foreground list at dispatch and background list at background dispatch (pinned with sentinels), exactly once each.",
+        "level_note": "Racing operations fix only the outcome after the racing call returned ('maybe' during the event in flight). Scheduling is perturbed, not controlled.",
+    },
+    "C09": {
+        "technique": "property-based testing (rapid): concurrent sender scenarios with a write-gated server; multiset + per-sender-order oracle on the wire transcript",
+        "level_text": "1-8 goroutines and 0-3 handler-triggered senders issue uniquely numbered lines through different command methods while the scripted server reads fast, slowly or in bursts (so the 32-slot queue fills and senders block); the transcript must contain exactly the issued lines, once each, byte for byte, each sender's lines in issue order.",
+        "level_note": "Flood control off, connection stays up (C10 / C07 cover the rest). Interleavings are sampled, not enumerated.",
+    },
+    "C15": {
+        "technique": "property-based testing (rapid): generated lines x handler populations that scribble; value and pointer-identity oracle",
+        "level_text": "Generated lines (with/without tags, 0-15 arguments, verbs with and without internal handlers) are delivered to 1-4 foreground and 0-3 background handlers; each records what it received, some overwrite every argument, tag and field at drawn moments, others look again later. Every record must equal the expected parse and no two invocations may share the *Line, the Args backing array or the Tags map.",
+        "level_note": "Internal handlers' lines cannot be observed from outside; they are covered indirectly (their edits would show in user handlers if storage were shared).",
+    },
+    "C16": {
+        "technique": "property-based testing (rapid): generated handler populations with panic / block scripts over event sequences; counting oracle with a capturing logger or custom Recover",
+        "level_text": "Foreground and background handlers panic with six kinds of value (string, error, int, nil, struct, runtime error) or block forever (background) according to per-event scripts, mixed with built-in handlers that panic on short lines; every well-behaved handler must still run once per matching event in order, every panic must reach the recovery function exactly once with the event's line (or be logged exactly once by the default), and delivery must continue while background handlers are blocked.",
+        "level_note": "A stall of 20 s (typical latency < 1 ms) is reported as a violation of 'not delayed' together with a goroutine dump.",
+    },
+    "C18": {
+        "technique": "property-based testing (rapid): configuration x session generator; dial-address, registration-prefix and PING/PONG token oracles on the wire",
+        "level_text": "Generated configurations and sessions are run through real Connect cycles against the scripted server: the dialled address (default port 6667/6697 only when absent), the exact registration prefix (CAP LS?, PASS?, NICK current, USER ident 12 * :name), one PONG per server PING carrying the same token for all token shapes, and client PINGs exactly when PingFreq > 0.",
+        "level_note": "SSL sessions are not established (address only). Bracketed IPv6 without a port is outside the generated domain.",
+    },
+    "C20": {
+        "technique": "property-based testing (rapid): password x configuration x failure-point generator; differential oracle against a password-less control run over a capturing logger",
+        "level_text": "Every record goirc hands to an installed capturing logger (all levels; format, formatted text and each argument) is searched for the generated password in normal and failing sessions (dial error, write error at the PASS line, EOF, refusal) with reconnects; exactly one masked record per PASS line written is required.",
+        "level_note": "Only the complete password is searched for; partial disclosure is outside the statement.",
+    },
 }
